@@ -65,6 +65,30 @@ def run(ch, build):
             ch.violation(desc, {"input": c, "what": "decoding the serialisation of a value does not give the value back", "first": first, "second": second})
         elif g != m:
             ch.corr_break(desc, {"input": c, "impl": g[:300], "model": m[:300]})
+    # the same through values that have decoded something else before (forall old in the theorems): the prior
+    # content is a canonical encoding of the same layer of another kind (for messages: a group-extension or OEM
+    # message, whose extra fields must not survive)
+    by_layer = {}
+    for name, b in cases:
+        by_layer.setdefault(name, []).append(b)
+    special = [L.message(rng, netfn=nf, n=6) for nf in (0x2c, 0x2d, 0x2e, 0x2f) for _ in range(3)]
+    pri = []
+    for (name, b), g in zip(cases, go):
+        if name == "message":
+            prior = rng.choice(special)
+        else:
+            prior = rng.choice(by_layer[name])
+        if ch.quick() and len(b) > 60 and rng.randrange(4):
+            continue
+        pri.append((name, prior, b, g))
+    gp = core.harness(["rtp %s %s %s" % (name, L.hx(prior), L.hx(b)) for name, prior, b, _ in pri])
+    for (name, prior, b, g), g2 in zip(pri, gp):
+        ch.note_case("c08-reused-" + name.split(":")[0], L.hx(prior) + "|" + L.hx(b))
+        if g2 != g:
+            ch.violation({"kind": "c08", "layer": name.split(":")[0], "reused": True},
+                         {"input": "rtp %s %s %s" % (name, L.hx(prior), L.hx(b)), "what": "decoding the serialisation into a value that held "
+                          "another packet before does not give the value back (the round trip depends on the previous contents)",
+                          "fresh": g[:400], "reused": g2[:400]})
     # AES: every payload length
     plains = []
     for n in range(0, maxlen + 1):
@@ -101,7 +125,21 @@ def run(ch, build):
 def replay(ch, build, path):
     import json
     r = json.load(open(path)); c = r["detail"]["input"]
-    g = core.harness([c])[0]; m = core.oracle([c])[0] if not c.startswith("rt aes") else ""
-    print("input:", c); print("impl :", g); print("model:", m)
-    print("VIOLATION property=C08 replay=%s" % path)
-    return 1
+    g = core.harness([c])[0]
+    bad = False
+    if c.startswith("rtp "):
+        w = c.split(" "); c0 = "rt %s %s" % (w[1], w[3])
+        g0 = core.harness([c0])[0]
+        print("input:", c); print("reused:", g[:400]); print("fresh :", g0[:400])
+        bad = g != g0
+    else:
+        m = core.oracle([c])[0] if not c.startswith("rt aes") else ""
+        print("input:", c); print("impl :", g[:400]); print("model:", m[:400])
+        if g.startswith("ok "):
+            hex2, shows = g[3:].split(" ", 1); first, second = shows.split(" || ")
+            bad = (not c.startswith("rt aes") and hex2 != c.split(" ")[2]) or first != second or (m != "" and g != m)
+        else:
+            bad = True
+    if bad:
+        print("VIOLATION property=C08 replay=%s" % path)
+    return 1 if bad else 0
